@@ -5,6 +5,7 @@
 //   the virtual clock jumping past TIMELIMIT at every clock read c; TIMELIMIT = 0; objective limits on both sides of the optimum.
 // After every stopped run the limit is lifted and optimize() must reach the exact status and optimum.
 #include "vx_history.hpp"
+#include "vx_planted.hpp"
 #include <sys/times.h>
 #include <sys/time.h>
 using namespace vx;
@@ -86,14 +87,31 @@ static void prepare(SoPlex& spx, const Setup& s)
    load_real(spx, *s.t, 0);
 }
 
+static uint64_t run_case_cl(const TinyLP& t, const Classification& cl, const std::string& caseName, const std::string& sigTag, const ConfigSpace::Cfg& cfg, bool exact, Ctx& c);
+
 static uint64_t run_case(const TinyLP& t, const ConfigSpace::Cfg& cfg, bool exact, Ctx& c)
 {
    XLP x = t.exact();
    Classification cl = classify(x);
+   return run_case_cl(t, cl, t.str(), "", cfg, exact, c);
+}
+
+// planted LP (vx_planted.hpp): dozens of iterations per solve instead of the one to four of the tiny families, so every kind of stop lands in
+// the middle of phase 1, phase 2, the primal/dual switch, the cleanup after perturbation ... ; classification known by construction
+static uint64_t run_planted16(const PlantedSpec& sp, const ConfigSpace::Cfg& cfg, bool exact, Ctx& c)
+{
+   PlantedLP P = planted(sp);
+   if(exact) { if(sp.kind == 0) P.cl.opt -= Q(P.lp.offset); P.lp.offset = 0; }
+   c.count(std::string("planted_class.") + sp.kindName());
+   return run_case_cl(P.lp, P.cl, sp.str(), "+planted", cfg, exact, c);
+}
+
+static uint64_t run_case_cl(const TinyLP& t, const Classification& cl, const std::string& caseName, const std::string& sigTag, const ConfigSpace::Cfg& cfg, bool exact, Ctx& c)
+{
    Model mo = Model::from(t);
    Setup su{&t, &cfg, exact};
-   std::string cfgs = g_cs.str(cfg) + (exact ? ",exact" : "");
-   std::string cs = t.str() + "#" + g_cs.str(cfg) + (exact ? "#exact" : "");
+   std::string cfgs = g_cs.str(cfg) + (exact ? ",exact" : "") + sigTag;
+   std::string cs = caseName + "#" + g_cs.str(cfg) + (exact ? "#exact" : "");
    // unlimited reference run under the virtual clock
    int N = 0;
    long C = 0;
@@ -269,7 +287,7 @@ static uint64_t run_case(const TinyLP& t, const ConfigSpace::Cfg& cfg, bool exac
       }
    }
    if(c.wantSample() && N >= 2)
-      c.sample("{\"lp\":" + t.json() + ",\"config\":" + jstr(cfgs) + ",\"iterations_unlimited\":" + std::to_string(N) + ",\"clock_reads_unlimited\":" + std::to_string(C) + "}");
+      c.sample("{\"lp\":" + (t.n <= 6 ? t.json() : jstr(caseName)) + ",\"config\":" + jstr(cfgs) + ",\"iterations_unlimited\":" + std::to_string(N) + ",\"clock_reads_unlimited\":" + std::to_string(C) + "}");
    if(N >= 1) c.count("nontrivial");
    return h;
 }
@@ -294,10 +312,13 @@ int main(int argc, char** argv)
       p += 9;
       std::string cs = doc.substr(p, doc.find('"', p) - p);
       auto parts = split(cs, '#');
-      TinyLP t = TinyLP::parse(parts[0]);
       ConfigSpace::Cfg cfg = g_cs.parse(parts.size() > 1 ? parts[1] : "default");
       bool exact = parts.size() > 2;
       mallopt(M_PERTURB, 85);
+      PlantedSpec psp;
+      if(cs.compare(0, 2, "P:") == 0 && PlantedSpec::parse(parts[0], psp))
+         return replay_case([&](Ctx & c) { run_planted16(psp, cfg, exact, c); });
+      TinyLP t = TinyLP::parse(parts[0]);
       return replay_case([&](Ctx & c) { run_case(t, cfg, exact, c); });
    }
    bool thorough = args.tier == "thorough";
@@ -341,6 +362,29 @@ int main(int argc, char** argv)
       t.offset = 0;
       return t.str() + "#" + g_cs.str(cfgs[(idx % 2) ? 0 : 7]) + "#exact";
    }, o);
+   {
+      // planted LPs: complete grid x the 11 configurations (floating point) and x 2 configurations (exact)
+      static PlantedGrid pg;
+      pg.sizes = {{5, 8}, {8, 5}, {10, 10}, {16, 12}, {12, 20}};
+      pg.densities = {40};
+      pg.seeds = thorough ? 10 : 2;
+      auto sfxP = [&](uint64_t idx, uint64_t sub) { return std::string("@") + (sub >= 999999 ? "timelimit0" : sub >= 100000 ? "timelimit" : sub >= 1000 ? "interrupt" : sub >= 499 ? "interrupt-at-entry" : "iterlimit") + "|" + g_cs.str(cfgs[idx % NC]) + "+planted"; };
+      rep.phase("stop points: planted LPs up to 16x12 / 12x20 x 11 configurations (floating point)", pg.size() * NC, [&](uint64_t idx, int, Ctx & c) -> uint64_t
+      {
+         c.count("lp_x_cfg_planted");
+         return run_planted16(pg.at(idx / NC), cfgs[idx % NC], false, c);
+      }, [&](uint64_t idx, uint64_t) { return pg.at(idx / NC).str() + "#" + g_cs.str(cfgs[idx % NC]); }, o, sfxP);
+      static PlantedGrid pe;
+      pe.sizes = {{5, 8}, {8, 5}, {10, 10}};
+      pe.densities = {40};
+      pe.seeds = thorough ? 4 : 1;
+      rep.phase("stop points: planted LPs up to 10x10, exact solves", pe.size() * 2, [&](uint64_t idx, int, Ctx & c) -> uint64_t
+      {
+         c.count("lp_x_cfg_planted_exact");
+         return run_planted16(pe.at(idx / 2), cfgs[(idx % 2) ? 0 : 7], true, c);
+      }, [&](uint64_t idx, uint64_t) { return pe.at(idx / 2).str() + "#" + g_cs.str(cfgs[(idx % 2) ? 0 : 7]) + "#exact"; }, o);
+      rep.extra["planted_grid"] = jstr("floating point: sizes (n x m) 5x8 8x5 10x10 16x12 12x20, density 40 %, degenerate 0/1, min/max, kinds OPT/INF/UNB, seeds 0.." + std::to_string(pg.seeds - 1) + "; exact: 5x8 8x5 10x10, seeds 0.." + std::to_string(pe.seeds - 1));
+   }
    auto& C = rep.all.counters;
    uint64_t stopped = C["stopped_runs.iterlimit"] + C["stopped_runs.interrupt"] + C["stopped_runs.timelimit"] + C["stopped_runs.timelimit0"] + C["stopped_runs.objlimit"] + C["interrupted_continuations"];
    rep.evaluations = C["reference_runs"] + stopped + C["resumed_runs"];
